@@ -215,14 +215,24 @@ def run(ctx):
     ctx.level = "proof"
     # (T) the bodies of Reader::check_eof / read / check_type of the CURRENT msgpack/reader.h ->
     # Gen/IoReaderChecks.v (Props/Properties_C14_reader_checks.v: the source's functions reject short input)
+    # the Gen files are shared by every run on this machine: the theorems count only if the file is
+    # still this tree's after the build, otherwise translate and build again
     checks = None
+    sys.path.insert(0, os.path.join(pv.ROOT, "translate"))
     try:
-        sys.path.insert(0, os.path.join(pv.ROOT, "translate"))
-        checks = importlib.import_module("gen_io_headers").main()["checks"]
+        gen = importlib.import_module("gen_io_headers")
+        for attempt in range(3):
+            checks = gen.main()["checks"]
+            res = ctx.prove()
+            again = gen.main()["written"]
+            if not again:
+                break
+        else:
+            raise RuntimeError("coq/Gen/Io*.v were rewritten by another process during each of 3 builds (%s)" % ", ".join(again))
     except Exception as e:
         msg = "translate/gen_io_headers.py: %s: %s" % (type(e).__name__, e)
         ctx.violation("translator", {"kind": "translator", "message": msg}, False, msg)
-    res = ctx.prove()
+        res = ctx.prove()
     ctx.cov["translator"] = "translate/gen_io_headers.py -> coq/Gen/IoReaderChecks.v (regenerated on this run: %s)" % (
         "not understood: %s" % checks["notes"] if checks and checks["notes"] else "3 bodies read" if checks else "FAILED")
     impl, model = io.drivers(ctx)
